@@ -269,6 +269,9 @@ fn emitted_member_tys<'a>(sd: &'a StructDef) -> impl Iterator<Item = &'a Member>
 pub fn predict_struct(sh: &Shader, r: &StructRole, o: &Opts) -> CompileOutcome {
     let sd = &sh.structs[r.index];
     let has = |sc: Sc| emitted_member_tys(sd).any(|m| m.ty.has_scalar(sc, &sh.structs));
+    if r.shader_type && emitted_member_tys(sd).next().is_none() {
+        return CompileOutcome::Unsupported("encase cannot derive ShaderType for a struct without fields");
+    }
     if r.shader_type && (has(Sc::F64) || has(Sc::Bool)) {
         return CompileOutcome::Unsupported("encase 0.10 has no f64/bool");
     }
